@@ -112,6 +112,7 @@ func (c *Client) Ping(quit <-chan struct{}) error {
 
 	// submit transaction
 	if err := c.write(quit, packetPINGREQ); err != nil {
+		verifEv("ping.werr")
 		select {
 		case <-c.pingAck: // unlock
 		default: // picked up by unrelated pong
